@@ -32,7 +32,7 @@ def gen(tier, seed):
     specs = []
     tail = [("registers",), ("print", ("mem", ("label", "v", 0))), ("print", ("mem", ("label", "w", 0))),
             ("print", ("mem", ("label", "later", 0))), ("exit",)]
-    n = 1500 if tier == "quick" else 40000
+    n = 1500 if tier == "quick" else 120000
     for i in range(n):
         src = SRC if i % 3 else SRC_HIGH
         orig = dbggen.origin_of(src)
